@@ -29,7 +29,7 @@ func init() {
 }
 
 func runC07(x *Ctx) {
-	x.C.Rule("C07.R1", "field bijection token <-> model <-> schema", 6)
+	x.C.Rule("C07.R1", "field bijection token <-> model <-> schema; optional fields serialised exactly when set", 8)
 	x.C.Rule("C07.R2", "codec pairing by function name", 2)
 	x.C.Rule("C07.R3", "key-algorithm tables", 3)
 	x.C.Rule("C07.R4", "constructors bound every serialised timestamp like the decoder", 9)
@@ -186,6 +186,41 @@ func fieldBijection(x *Ctx, pk string) {
 		}
 	}
 	x.C.Obl("C07.R1", "bijection:"+pk, x.pos(enc), fmt.Sprintf("toIPLD and tokenFromModel are inverse bijections between the %d token fields and the %d model fields", len(tokFields), len(modelFields)), bad == "" && len(tokFields) == len(modelFields), bad)
+	// presence: a pointer-typed token field (time bounds, cause) that is set is written; the wire form says
+	// "absent" only on paths that know the token field to be nil (a sealed token that drops a bound that was set
+	// - the zero time, say - unseals as a different token)
+	badP, nP := "", 0
+	for _, v := range esel {
+		ct, _ := paths.CallOf(v.Results()[0])
+		if ct == nil || len(ct.Args) != 2 {
+			continue
+		}
+		cell := paths.CellOf(ct.Args[1])
+		if cell == nil {
+			continue
+		}
+		fs := v.FieldStores(cell)
+		for m, f := range usedModel {
+			ft := fieldType(x, pk, "Token", f)
+			if ft == nil {
+				continue
+			}
+			if ft.String() != "*time.Time" {
+				continue // other optional fields are copied as they are (cause) or have a documented empty form (meta)
+			}
+			nP++
+			val := fs[m]
+			absent := val == nil || val.IsNil()
+			known, has := v.FactOn(eqs("recv."+f, "const(nil)"))
+			switch {
+			case absent && !(has && known):
+				badP += fmt.Sprintf("model field %s is left absent on a path that does not know token field %s to be nil:\n%s\n", m, f, v.Path.String())
+			case !absent && !(has && !known):
+				badP += fmt.Sprintf("model field %s is written on a path that does not know token field %s to be set\n", m, f)
+			}
+		}
+	}
+	x.C.Obl("C07.R1", "presence:"+pk, x.pos(enc), "a time bound of the token is serialised exactly when it is set", badP == "" && nP > 0, firstLines(dedupLines(badP), 14))
 	var pairs []string
 	for m, f := range usedModel {
 		pairs = append(pairs, f+"<->"+m)
@@ -514,7 +549,7 @@ func keysPairedWithValues(x *Ctx) {
 			continue
 		}
 		type ev struct{ base, key string }
-		bad, n := "", 0
+		bad, n, aliased := "", 0, ""
 		for _, p := range x.pathsQuiet(f) {
 			var appends, updates []ev
 			p.InstrsIn(func(in ssa.Instruction, c *paths.Ctx) {
@@ -526,10 +561,17 @@ func keysPairedWithValues(x *Ctx) {
 					}
 					val := c.Term(v.Val)
 					base := at.Args[0].String()
-					if val.Op == "call" && val.Name == "builtin.append" && len(val.Args) == 2 && val.Args[0].String() == base+".Keys" && val.Args[1].Op == "varargs" {
+					switch {
+					case val.Op == "call" && val.Name == "builtin.append" && len(val.Args) == 2 && val.Args[0].String() == base+".Keys" && val.Args[1].Op == "varargs":
 						for _, k := range val.Args[1].Args {
 							appends = append(appends, ev{base, k.String()})
 						}
+					case val.Op == "call" && strings.HasPrefix(val.Name, "slices.Grow[") && len(val.Args) == 2 && val.Args[0].String() == base+".Keys":
+						// capacity only
+					case val.Op == "make" || val.IsNil() || (val.Op == "call" && (strings.HasPrefix(val.Name, "slices.Clone[") || val.Name == "builtin.append" && len(val.Args) == 2 && (val.Args[0].IsNil() || val.Args[0].Op == "make"))):
+						// a fresh list
+					default:
+						aliased += fmt.Sprintf("%s: %s.Keys is assigned %s: the key list of the container must be its own (appended to, or a fresh copy), not another container's slice\n", load.ShortName(f), base, val)
 					}
 				case *ssa.MapUpdate:
 					mt := c.Term(v.Map)
@@ -567,6 +609,9 @@ func keysPairedWithValues(x *Ctx) {
 					bad += fmt.Sprintf("%s: a value is stored under key %s of %s.Values without the key being appended to %s.Keys (it would not be serialised)\n", load.ShortName(f), u.key, u.base, u.base)
 				}
 			}
+		}
+		if aliased != "" {
+			bad += aliased
 		}
 		if n > 0 || bad != "" {
 			x.C.Obl("C07.R8", "paired:"+load.ShortName(f), x.pos(f), "keys are appended to the key list exactly when new in the map, together with their value", bad == "", dedupLines(bad))
